@@ -8,11 +8,15 @@ RealCases == {[kind |-> "real", a |-> a, r |-> <<r1, r2, r3>>, co |-> CoeffsReal
 CplxCases == {[kind |-> "cplx", a |-> a, r |-> <<r>>, b |-> b, c |-> c, co |-> CoeffsCplx(a, r, b, c), k |-> k, refine |-> f,
                branch |-> Branch(CoeffsCplx(a, r, b, c))] :
                 a \in As, r \in -3..3, b \in -2..2, c \in 1..4, k \in Ks, f \in 0..1}
-Cases == {c \in RealCases : c.r[1] <= c.r[2] /\ c.r[2] <= c.r[3]} \cup {c \in CplxCases : c.b * c.b < 4 * c.c}
+\* one real root -s and two complex roots such that the depressed form x^3 + p x + q has a very small p / q^(2/3): the sum of
+\* the two cube roots of Cardano's formula then cancels ((x + s)(x^2 - s x + s^2 + e) = x^3 + e x + s (s^2 + e))
+NearCases == {[kind |-> "cplx", a |-> a, r |-> <<-s>>, b |-> -s, c |-> s * s + e, co |-> CoeffsCplx(a, -s, -s, s * s + e), k |-> k, refine |-> f,
+               branch |-> "disc<0:nearly-p=0"] : a \in {1, -2}, s \in {16, 64, 256}, e \in {1, 3}, k \in {0, 10, -10}, f \in 0..1}
+Cases == NearCases \cup {c \in RealCases : c.r[1] <= c.r[2] /\ c.r[2] <= c.r[3]} \cup {c \in CplxCases : c.b * c.b < 4 * c.c}
 Number(S) == LET s == SetToSeq(S) IN [i \in 1..Len(s) |-> [id |-> i] @@ s[i]]
 ASSUME Theorems
 \* every branch of the case analysis is exercised
-ASSUME {c.branch : c \in Cases} = {"p=0,q=0", "p=0", "q=0", "disc=0", "disc<0", "disc>0"}
+ASSUME {c.branch : c \in Cases} = {"p=0,q=0", "p=0", "q=0", "disc=0", "disc<0", "disc>0", "disc<0:nearly-p=0"}
 ASSUME ndJsonSerialize(IOEnv.OUT, Number(Cases))
 ASSUME PrintT(<<"GEN", Cardinality(Cases)>>)
 =============================================================================
